@@ -3,7 +3,7 @@ SPECIFICATION MCSpec
 CONSTANTS FieldKinds <- K_few
           ConstTexts <- C_one
           AttrNames <- Nm_none
-          Widths <- W_all
+          Widths <- W_two
           AllowLeft = TRUE
           Fmts <- Fm_one
           Seps <- Sp_two
